@@ -12,6 +12,10 @@ mod d_hubworld;
 mod d_misc;
 mod d_world2;
 mod d_migrate;
+mod d_reward;
+mod d_token;
+mod d_hubauth;
+mod d_hubseq;
 
 pub struct Rng(pub u64);
 impl Rng {
@@ -45,6 +49,10 @@ fn driver(name: &str) -> Box<dyn Driver> {
         "registry_remove" => Box::new(d_world2::RegistryRemove),
         "dispatcher_swap" => Box::new(d_world2::DispatcherSwap),
         "hub_migrate" => Box::new(d_migrate::HubMigrate),
+        "reward_world" => Box::new(d_reward::RewardWorld),
+        "token_world" => Box::new(d_token::TokenWorld),
+        "hub_auth" => Box::new(d_hubauth::HubAuth),
+        "hub_seq" => Box::new(d_hubseq::HubSeq),
         other => {
             if let Some(d) = d_hub::driver(other) { return d; }
             if let Some(d) = d_misc::driver(other) { return d; }
